@@ -79,11 +79,33 @@ def run(ctx):
         if c._module.rel != IR or c.name in skip:
             continue
         ctx.ob("C29.R4", D + ":SelectionGraphBuilder", "ir.%s is dispatched to a do_* handler" % c.name, c.name in handled, construct="handler:" + c.name)
+    late_binding_rule(ctx, "C29.R5", ("ppci/codegen/", "ppci/arch/", "ppci/binutils/", "ppci/irutils/", "ppci/opt/", "ppci/ir.py", "ppci/api.py"))
     # ---- R3 ----
     dump = ctx.isa()
     ctx.need(not dump["errors"], "ISA dump reported errors: %s" % dump["errors"][:2])
     for arch in TARGETS:
         grammar_cells(ctx, dump, arch, "C29.R3")
+
+
+def late_binding_rule(ctx, rid, prefixes):
+    """rule templates (selector rules, grammar reductions, relocation handlers) are registered as closures; one
+    created in a loop must freeze what it captures"""
+    from .. import closures
+    ctx.rule(rid, "no closure created in a loop reads a variable that the loop re-binds (late binding: every closure would see the last iteration's value, e.g. every UND<type> rule allocating the last register class)", floor=1)
+    ctl = ast.parse("def f(classes, out):\n    for c in classes:\n        k = c.typ\n        def mk(ctx):\n            return ctx.new_reg(k)\n        out.append(mk)\n        out.sort(key=lambda x: x.name + c.name)\n")
+    for par in ast.walk(ctl):
+        for ch in ast.iter_child_nodes(par):
+            ch._parent = par
+    ctx.need([cap for _, _, cap in closures.late_binding(ctl)] == [["k"]], "%s positive control lost" % rid)
+    n_mod = 0
+    for rel in sorted(ctx.project.modules):
+        if not rel.startswith(prefixes):
+            continue
+        n_mod += 1
+        for node, loop, cap in closures.late_binding(ctx.project.module(rel).tree):
+            ctx.ob(rid, rel, "closure `%s` defined in a loop does not capture the loop-bound name(s) %s" % (getattr(node, "name", "lambda"), cap), False,
+                   construct="late-binding:%s:%s" % (getattr(node, "name", "lambda"), ",".join(cap)), node=node, detail="loop at line %d re-binds %s" % (loop.lineno, cap))
+    ctx.ob(rid, "ppci/*", "modules scanned for late-binding closures: %d" % n_mod, True, construct="scan-closures")
 
 
 def grammar_cells(ctx, dump, arch, rid, narrow_arith=True):
